@@ -294,9 +294,11 @@ class World:
             self.nname += 1
             mode = cs.choice("mode", MODES)
             style = cs.choice("namestyle", ["f{}", "f{}", "d.{}", "s {}",
-                                            "U_{}-x"])
+                                            "U_{}-x", "c{}.csv"])
             if mode == "zip_noext" and "." in style:
                 style = "f{}"      # 'd.1' without extension reads as suffix .1
+            if style == "c{}.csv" and mode != "zip_zip":
+                style = "f{}"      # only the 'name.csv.zip' convention
             lname = style.format(self.nname)
             if mode == "member" and not any(a["mode"] == "w"
                                             for a in self.archives.values()):
@@ -446,6 +448,8 @@ class World:
                     elif mode == "zip_noext":
                         variants += [Path(str(p) + ".zip"),
                                      Path(str(p) + ".csv")]
+                    if p.name.endswith(".csv.zip"):
+                        variants = [p]
                     if "." in p.stem:
                         # the reader resolves names through their stem: an
                         # extension-less spelling of 'd.1.csv' is not a name it
